@@ -351,8 +351,25 @@ pub fn run_sequence(init_nodes: usize, ops: &[GOp], check_every: bool, stats: &m
     serial += 1;
     let is_add_edge = matches!(op, GOp::AddEdge(..));
     let before = if is_add_edge { Some(observe(&sut)) } else { None };
+    // the same reachability question is asked immediately before and immediately after the operation (an answer must
+    // not survive a change of the graph); the pair prefers a node the operation touches
+    let probe = {
+      let n = sut.handles.len();
+      let touched = match op { GOp::RemoveNode(x) | GOp::RemoveOut(x) => Some(*x), GOp::RemoveEdge(a, _) | GOp::AddEdge(a, _) => Some(*a), _ => None };
+      if n >= 3 {
+        // a parent of the touched node to a child of it, if it has both; otherwise a step-dependent pair
+        let via = touched.filter(|t| *t < n && !m.parents[*t].is_empty() && !m.children[*t].is_empty());
+        Some(match via { Some(t) if step % 2 == 0 => (m.parents[t][step % m.parents[t].len()], m.children[t][step % m.children[t].len()]), _ => ((step * 7 + 1) % n, (step * 13 + 3) % n) })
+      } else { None }
+    };
+    if let Some((x, y)) = probe { let _ = sut.dag.contains_transitive_edge(sut.handles[x], sut.handles[y]); }
     let want = model_apply(&mut m, *op, serial);
     let got = sut.apply(*op, serial);
+    if let Some((x, y)) = probe {
+      let q = sut.dag.contains_transitive_edge(sut.handles[x], sut.handles[y]);
+      let wq = x != y && m.reaches(x, y);
+      if q != wq && got == want { return Err(("C11", format!("contains_transitive_edge({},{}) asked right before and right after {}: the second answer is {} but the edge set says {}", x, y, op.render(), q, wq), step)); }
+    }
     match (&want, op) {
       (Ret::Cycle, _) => stats.cycles += 1,
       (Ret::Added(false), _) => stats.reinserts += 1,
